@@ -1,6 +1,7 @@
 """Environment stubs: files, zfpy (fixed-rate contract), thread-pool executor, and the installer that
 shadows module-global names inside the repo's modules (the function bodies executed are the ones on disk).
 """
+import os
 import sys
 import importlib
 import numpy as real_np
@@ -450,8 +451,9 @@ _SAVED = {}
 
 def repo_modules():
     """(Re)import the repo's modules from /repo's working tree."""
-    if '/repo' not in sys.path:
-        sys.path.insert(0, '/repo')
+    repo = os.environ.get('VERIF_REPO', '/repo')
+    if repo not in sys.path:
+        sys.path.insert(0, repo)
     import seismic_zfp
     mods = {}
     for n in ('utils', 'version', 'headers', 'loader', 'read', 'conversion_utils', 'conversion', 'cropping',
